@@ -46,7 +46,7 @@ Next ==
        \/ mode = "can" /\ \E cut \in 0..5 :
              Set(Frame(9, 3, 2, SubSeq(CanP(<< 0, 0, 3, 33 >>, 0, 0, << >>), 1, cut) \o (IF cut = 0 THEN << >> ELSE << >>)),
                  [n |-> 0, short |-> IF cut < 5 THEN 1 ELSE 0, arb |-> << 0, 0, 3, 33 >>, extra |-> 0])
-       \/ mode = "lin" /\ \E n \in 0..64, short \in {0, 1, 2}, cs \in {0, 1}, pid \in {60, 255} :
+       \/ mode = "lin" /\ \E n \in (0..64) \cup {253, 254, 255}, short \in {0, 1, 2}, cs \in {0, 1}, pid \in {60, 255} :
              (short <= n) /\ Set(Frame(10, 3, 4, << pid, n >> \o B(n - short, 90) \o (IF short = 0 /\ cs = 1 THEN << 171 >> ELSE << >>)),
                                  [n |-> n, short |-> short, pid |-> pid, cs |-> IF short = 0 /\ cs = 1 THEN 171 ELSE 0])
        \/ mode = "bus" /\ \E k \in 0..MaxEntries, tail \in {0, 5, 11}, m \in {0, 1, 2} :   \* m > 0: entries repeat interface ids (mod m)
